@@ -182,26 +182,55 @@ contract(F + "ItemGrader.standardize_cfn_return", props=["C01", "C16"],
 
 
 # ---------------------------------------------------------------------------------------------- AbstractGrader.__call__ (C01, C02, C11, C17)
-contract(F + "AbstractGrader.ensure_text_inputs", props=["C02"], trusted=True,
+# voluptuous applied to the submission (the only trusted part, A10): Schema([str])(x) returns a validated COPY of a list of texts and raises
+# MultipleInvalid (carrying a `path` list) otherwise; Schema(str)(x) returns a text unchanged and raises MultipleInvalid otherwise
+_SCHEMA_LIST = dict(params=['x'],
+                    ensures=["is_list(x) and forall(range(len(x)), lambda i: is_str(x[i]))", "is_list(result) and fresh(result) and len(result) == len(x)",
+                             "forall(range(len(x)), lambda i: same(result[i], x[i]))"],
+                    exsures={"MultipleInvalid": ["not (is_list(x) and forall(range(len(x)), lambda i: is_str(x[i])))", "has_attr(exc, 'path') and is_list(exc.path) and allocated(exc.path)",
+                                                 "implies(len(exc.path) > 0, is_int(exc.path[0]) and 0 <= exc.path[0] and exc.path[0] < len(x))"]},
+                    modifies=[], note="A10: voluptuous Schema([str]) applied to a list")
+_SCHEMA_STR = dict(params=['x'], ensures=["is_str(x)", "same(result, x)"],
+                   exsures={"MultipleInvalid": ["not is_str(x)", "has_attr(exc, 'path') and is_list(exc.path) and allocated(exc.path) and len(exc.path) == 0"]},
+                   modifies=[], note="A10: voluptuous Schema(str) applied to a value")
+
+contract(F + "AbstractGrader.ensure_text_inputs", props=["C02"],
+    requires=["is_bool(allow_lists) and is_bool(allow_single)"],        # student_input: ANY value
+    callees={"Schema([str])": _SCHEMA_LIST, "Schema(str)": _SCHEMA_STR},
     ensures=["implies(is_str(student_input), same(result, student_input))",
              # (voluptuous returns a validated copy of a list)
              "implies(is_list(student_input), is_list(result) and len(result) == len(student_input) and forall(range(len(student_input)), lambda i: same(result[i], student_input[i])))",
+             # a value is returned ONLY for a text (when single inputs are allowed) or a list of texts (when lists are allowed): everything else is refused
              "(allow_lists and is_list(student_input) and forall(range(len(student_input)), lambda i: is_str(student_input[i]))) or (allow_single and is_str(student_input))"],
-    exsures={"ConfigError": "True", "ValueError": "not allow_lists and not allow_single"}, modifies=[],
-    note="A10 (voluptuous Schema(str) / Schema([str])): returns its argument iff it is a text / list of texts as the flags demand, else raises ConfigError; decided by the bounded tier")
+    exsures={"ConfigError": "not ((allow_lists and is_list(student_input) and forall(range(len(student_input)), lambda i: is_str(student_input[i]))) or (allow_single and is_str(student_input)))",
+             "ValueError": "not allow_lists and not allow_single"},
+    modifies=[],
+    note="non-text / wrongly nested input is refused with ConfigError, never graded; only the voluptuous calls are assumed (A10)")
 
-contract(F + "ItemGrader.ensure_text_inputs", props=["C02"], trusted=True,
-    ensures=["same(result, student_input)", "is_str(student_input)"], exsures={"ConfigError": "True"}, modifies=[],
-    note="delegates to AbstractGrader.ensure_text_inputs(allow_lists=False)")
+contract(F + "ItemGrader.ensure_text_inputs", props=["C02"],
+    ensures=["same(result, student_input)", "is_str(student_input)"], exsures={"ConfigError": "not is_str(student_input)"}, modifies=[],
+    note="delegates to AbstractGrader.ensure_text_inputs(allow_lists=False): checked against that function's contract (modular)")
 
-contract(F + "AbstractGrader.create_debuglog", props=["C11", "C01"], trusted=True,
-    requires=["is_object(self)"],
+contract(F + "AbstractGrader.create_debuglog", props=["C11", "C01"],
+    requires=["is_object(self)", "has_attr(self, 'log_created') and is_bool(self.log_created)", "has_attr(self, 'modified_defaults')",
+              "self.modified_defaults is None or (is_dict(self.modified_defaults) and allocated(self.modified_defaults))",
+              "implies(self.log_created, has_attr(self, 'debuglog') and is_list(self.debuglog) and allocated(self.debuglog))",
+              ],
+    consts={"__version__": "str"},
+    callees={"'\\n'.join": dict(params=['xs'], ensures=["is_str(result)"], modifies=[], pure=True, note="A6: newline-joined text of the inputs"),
+             "map": dict(params=['f', 'xs'], ensures=["True"], modifies=[], pure=True, note="map(str, inputs): lazily converted inputs (consumed by join only)"),
+             "str": dict(params=['x'], ensures=["is_str(result)"], modifies=[], pure=True, note="A6: str(x) is some text")},
     ensures=["has_attr(self, 'debuglog', 'log_created')", "is_list(self.debuglog) and allocated(self.debuglog)", "same(self.log_created, True)",
-             "implies(has_attr(old(self), 'config'), same(self.config, old(self.config)))"],
-    modifies=["self"],
-    note="builds the debug log header (platform / json formatting outside the model); postcondition assumed, exercised by the bounded tier")
+             "implies(has_attr(old(self), 'config'), same(self.config, old(self.config)))",
+             # a log that already exists is left alone; a new one starts with the version banner
+             "implies(old(self.log_created), same(self.debuglog, old(self.debuglog)))", "implies(not old(self.log_created), fresh(self.debuglog) and len(self.debuglog) >= 3)"],
+    modifies=["self", "self.debuglog if old(self.log_created) else nothing"],
+    note="builds the debug log header; platform / json formatting are abstract text (A6)")
 
-contract(F + "AbstractGrader.log_output", props=["C01"], trusted=True, ensures=["is_str(result)"], modifies=[],
+contract(F + "AbstractGrader.log_output", props=["C01"],
+    requires=["is_object(self)", "has_attr(self, 'debuglog') and is_list(self.debuglog)"],
+    callees={"'\\n'.join": dict(params=['xs'], ensures=["is_str(result)"], modifies=[], pure=True, note="A6: newline-joined text")},
+    ensures=["is_str(result)"], modifies=[],
     note="'<pre>' + newline-joined debug log + '</pre>': string formatting (A6)")
 
 
